@@ -30,7 +30,8 @@ theorem codeAt_self (c : List (Instr Reg V)) : CodeAt c 0 c := by
 /-! ### program layout: main code, then one block per procedure -/
 
 theorem compProc_length (lit : Nat → V) (entry : Nat → Nat) (b : Stmt V) (k : Nat) : (compProc lit entry b k).length = blockSize b := by
-  simp [compProc, comp_length, blockSize, nopI]
+  unfold compProc blockSize
+  split <;> simp [comp_length, nopI, pushRa, popRa, retI] <;> omega
 
 theorem codeAt_flatten (pre : List (Instr Reg V)) : ∀ (Ls : List (List (Instr Reg V))) (k : Nat) (c : List (Instr Reg V)), Ls[k]? = some c →
     CodeAt (pre ++ Ls.flatten) (pre.length + ((Ls.take k).map List.length).sum) c := by
@@ -85,34 +86,38 @@ theorem compProg_main (lit : Nat → V) (main : Stmt V) (procs : List (Stmt V)) 
   intro i hi
   simp [compProg, List.getElem?_append_left hi]
 
-/-- **programs that keep running** (the normal case on the chip: `while True:` at the end), with leaf procedures: every effect
-    trace the source reaches is reached by the chip, with the same stack memory and the same registers except `ra` -/
-theorem compile_correct_running (sem : Sem V) (env : Env V) (lit : Nat → V) (hlit : ∀ n, sem.toAddr (lit n) = some n)
-    (hof : ∀ n, sem.toAddr (sem.ofNat n) = some n) (main : Stmt V) (procs : List (Stmt V))
-    (hmain : Good sem (fun k => k < procs.length) main) (hprocs : ∀ k, k < procs.length → Good sem (fun _ => False) (procOf procs k))
-    (fuel : Nat) (σ σ' : SSt V) (h : exec sem env (procOf procs) fuel main σ = .timeout σ') :
+/-- **programs that keep running** (the normal case on the chip: `while True:` at the end), with procedures that may call
+    procedures of smaller rank: every effect trace the source reaches is reached by the chip, with the same program memory
+    (the stack cells from `lo` on) and the same registers except `ra` / `sp` -/
+theorem compile_correct_running (sem : Sem V) (lo : Nat) (env : Env V) (lit : Nat → V) (hlit : ∀ n, sem.toAddr (lit n) = some n)
+    (hof : ∀ n, sem.toAddr (sem.ofNat n) = some n) (hlo : lo ≤ stackSize) (main : Stmt V) (procs : List (Stmt V)) (rk : Nat → Nat) (b : Nat)
+    (hb : b ≤ lo) (hrk : ∀ k, k < procs.length → rk k < b)
+    (hmain : Good sem lo (fun k => k < procs.length) main)
+    (hprocs : ∀ k, k < procs.length → Good sem lo (fun j => j < procs.length ∧ rk j < rk k) (procOf procs k))
+    (fuel : Nat) (σ σ' : SSt V) (hsp : σ.regs Special.sp = sem.ofNat 0) (h : exec sem env (procOf procs) fuel main σ = .timeout σ') :
     ∃ k, fuel ≤ k ∧ (run sem env (compProg lit main procs) k (mk σ 0)).trace = σ'.trace ∧
-      (run sem env (compProg lit main procs) k (mk σ 0)).mem = σ'.mem ∧
-      (∀ r, r ≠ (Special.ra : Reg) → (run sem env (compProg lit main procs) k (mk σ 0)).regs r = σ'.regs r) ∧
+      (∀ n, lo ≤ n → (run sem env (compProg lit main procs) k (mk σ 0)).mem n = σ'.mem n) ∧
+      (∀ r, r ≠ (Special.ra : Reg) → r ≠ (Special.sp : Reg) → (run sem env (compProg lit main procs) k (mk σ 0)).regs r = σ'.regs r) ∧
       (run sem env (compProg lit main procs) k (mk σ 0)).halted = false := by
-  have hok : ∀ k, k < procs.length → ProcOk sem lit (entryOf (size main) procs) (procOf procs) (compProg lit main procs) k :=
+  have hok : ∀ k, k < procs.length → ProcOk sem lo lit (entryOf (size main) procs) (procOf procs) (compProg lit main procs) rk (fun k => k < procs.length) k :=
     fun k hk => ⟨compProg_proc lit main procs k hk, hprocs k hk⟩
-  obtain ⟨k, pc, hle, hk⟩ := (sim sem env lit _ (procOf procs) (compProg lit main procs) hlit hof _ hok fuel main hmain 0 0 0 0 σ (mk σ 0)
-    (compProg_main lit main procs) (at_mk σ 0)).2 σ' h
+  obtain ⟨k, pc, d', stk', hle, hk⟩ := (sim sem lo env lit _ (procOf procs) (compProg lit main procs) rk _ hlit hof hlo hok fuel main
+    (fun k => k < procs.length) b (fun k hk => ⟨hk, hrk k hk⟩) hmain 0 0 0 0 σ (mk σ 0) 0 [] (by omega)
+    (compProg_main lit main procs) (at_mk sem lo σ 0 hsp)).2 σ' h
   exact ⟨k, hle, hk.trace, hk.mem, hk.regs, hk.halted⟩
 
 /-- **terminating programs** (no procedure emitted after the main code): the chip reaches the line after the program with the
-    source's final registers (except `ra`), stack and effects, then stops, and the trace never changes again -/
-theorem compile_correct_done (sem : Sem V) (env : Env V) (lit : Nat → V) (hlit : ∀ n, sem.toAddr (lit n) = some n)
-    (hof : ∀ n, sem.toAddr (sem.ofNat n) = some n) (p : Stmt V) (hgood : Good sem (fun _ => False) p)
-    (fuel : Nat) (σ σ' : SSt V) (h : exec sem env (fun _ => .skip) fuel p σ = .done σ') :
-    ∃ k, At (run sem env (comp lit (fun _ => 0) p 0 0 0 0) k (mk σ 0)) σ' (size p) ∧
+    source's final registers (except `ra` / `sp`), program memory and effects, then stops, and the trace never changes again -/
+theorem compile_correct_done (sem : Sem V) (lo : Nat) (env : Env V) (lit : Nat → V) (hlit : ∀ n, sem.toAddr (lit n) = some n)
+    (hof : ∀ n, sem.toAddr (sem.ofNat n) = some n) (hlo : lo ≤ stackSize) (p : Stmt V) (hgood : Good sem lo (fun _ => False) p)
+    (fuel : Nat) (σ σ' : SSt V) (hsp : σ.regs Special.sp = sem.ofNat 0) (h : exec sem env (fun _ => .skip) fuel p σ = .done σ') :
+    ∃ k, At sem lo (run sem env (comp lit (fun _ => 0) p 0 0 0 0) k (mk σ 0)) σ' (size p) 0 [] ∧
       ∀ j, (run sem env (comp lit (fun _ => 0) p 0 0 0 0) (k + (j + 1)) (mk σ 0)).trace = σ'.trace ∧
            (run sem env (comp lit (fun _ => 0) p 0 0 0 0) (k + (j + 1)) (mk σ 0)).halted = true := by
-  have hok : ∀ k, (fun _ : Nat => False) k → ProcOk sem lit (fun _ => 0) (fun _ => Stmt.skip) (comp lit (fun _ => 0) p 0 0 0 0) k :=
+  have hok : ∀ k, (fun _ : Nat => False) k → ProcOk sem lo lit (fun _ => 0) (fun _ => Stmt.skip) (comp lit (fun _ => 0) p 0 0 0 0) (fun _ => 0) (fun _ => False) k :=
     fun k hk => hk.elim
-  obtain ⟨k, hk, _⟩ := (sim sem env lit (fun _ => 0) (fun _ => .skip) (comp lit (fun _ => 0) p 0 0 0 0) hlit hof _ hok fuel p hgood 0 0 0 0 σ (mk σ 0)
-    (codeAt_self _) (at_mk σ 0)).1 .norm σ' h
+  obtain ⟨k, hk, _⟩ := (sim sem lo env lit (fun _ => 0) (fun _ => .skip) (comp lit (fun _ => 0) p 0 0 0 0) (fun _ => 0) (fun _ => False) hlit hof hlo hok fuel p
+    (fun _ => False) 0 (fun k hk => hk.elim) hgood 0 0 0 0 σ (mk σ 0) 0 [] (by omega) (codeAt_self _) (at_mk sem lo σ 0 hsp)).1 .norm σ' h
   simp only [Nat.zero_add, land] at hk
   refine ⟨k, hk, ?_⟩
   intro j
@@ -144,23 +149,38 @@ theorem opndOkB_sound (o : Opnd Reg V) (h : opndOkB o = true) : opndOk o := by
   | reg r => simpa [opndOkB, opndOk] using h
   | num v => trivial
 
+theorem regOkB_sound (x : Reg) (h : regOkB x = true) : regOk x := by
+  simpa [regOkB, regOk] using h
+
+theorem addrOkB_sound (sem : Sem V) (lo : Nat) (o : Opnd Reg V) (h : addrOkB sem lo o = true) : addrOk sem lo o := by
+  cases o with
+  | reg r => simp [addrOkB] at h
+  | num v =>
+    simp only [addrOkB] at h
+    cases ht : sem.toAddr v with
+    | none => rw [ht] at h; cases h
+    | some n =>
+      rw [ht] at h
+      simp only [Bool.and_eq_true, decide_eq_true_eq] at h
+      exact ⟨n, ht, h.1, h.2⟩
+
 theorem argsOk_sound (args : List (Opnd Reg V)) (h : args.all opndOkB = true) : ∀ o ∈ args, opndOk o := by
   intro o ho
   rw [List.all_eq_true] at h
   exact opndOkB_sound o (h o ho)
 
-theorem goodB_sound (sem : Sem V) (pairs : List (String × String × Nat)) (procs : List Nat) (ok : Nat → Prop)
+theorem goodB_sound (sem : Sem V) (lo : Nat) (pairs : List (String × String × Nat)) (procs : List Nat) (ok : Nat → Prop)
     (hp : ∀ p ∈ pairs, ∀ vals : List V, vals.length = p.2.2 → sem.cond p.2.1 vals = !sem.cond p.1 vals)
     (hprocs : ∀ k ∈ procs, ok k) :
-    ∀ s : Stmt V, goodB pairs procs s = true → Good sem ok s := by
+    ∀ s : Stmt V, goodB sem lo pairs procs s = true → Good sem lo ok s := by
   intro s
   induction s with
-  | alu x op args => intro h; simp only [goodB, Bool.and_eq_true, bne_iff_ne, ne_eq] at h; exact ⟨h.1, argsOk_sound args h.2⟩
-  | load x q args => intro h; simp only [goodB, Bool.and_eq_true, bne_iff_ne, ne_eq] at h; exact ⟨h.1, argsOk_sound args h.2⟩
+  | alu x op args => intro h; simp only [goodB, Bool.and_eq_true] at h; exact ⟨regOkB_sound x h.1, argsOk_sound args h.2⟩
+  | load x q args => intro h; simp only [goodB, Bool.and_eq_true] at h; exact ⟨regOkB_sound x h.1, argsOk_sound args h.2⟩
   | store q args => intro h; exact argsOk_sound args h
   | sleep a => intro h; exact opndOkB_sound a h
-  | getm x a => intro h; simp only [goodB, Bool.and_eq_true, bne_iff_ne, ne_eq] at h; exact ⟨h.1, opndOkB_sound a h.2⟩
-  | putm a v => intro h; simp only [goodB, Bool.and_eq_true] at h; exact ⟨opndOkB_sound a h.1, opndOkB_sound v h.2⟩
+  | getm x a => intro h; simp only [goodB, Bool.and_eq_true] at h; exact ⟨regOkB_sound x h.1, addrOkB_sound sem lo a h.2⟩
+  | putm a v => intro h; simp only [goodB, Bool.and_eq_true] at h; exact ⟨addrOkB_sound sem lo a h.1, opndOkB_sound v h.2⟩
   | call k => intro h; simp only [goodB, List.contains_iff_mem] at h; exact hprocs k h
   | seq p q ihp ihq =>
     intro h; simp only [goodB, Bool.and_eq_true] at h; exact ⟨ihp h.1, ihq h.2⟩
@@ -200,9 +220,9 @@ theorem real_pairs_negate (sem : Sem Int) (h : LinCond sem) :
 
 /-- the two together: a core program that passes the executable check `goodB` against the real tables satisfies the hypothesis
     of the theorems (`procs`: the procedures it may call) -/
-theorem good_of_real_tables (sem : Sem Int) (h : LinCond sem) (procs : List Nat) (ok : Nat → Prop) (hprocs : ∀ k ∈ procs, ok k)
-    (p : Stmt Int) (hp : goodB PV.Flatten.branchPairs procs p = true) : Good sem ok p :=
-  goodB_sound sem _ procs ok (real_pairs_negate sem h) hprocs p hp
+theorem good_of_real_tables (sem : Sem Int) (lo : Nat) (h : LinCond sem) (procs : List Nat) (ok : Nat → Prop) (hprocs : ∀ k ∈ procs, ok k)
+    (p : Stmt Int) (hp : goodB sem lo PV.Flatten.branchPairs procs p = true) : Good sem lo ok p :=
+  goodB_sound sem lo _ procs ok (real_pairs_negate sem h) hprocs p hp
 
 /-! non-vacuity: a counting loop with a device write, on integers -/
 def intSem : Sem Int :=
@@ -216,21 +236,13 @@ def demo : Stmt Int :=
   .seq (.alu 0 "add" [.num 0, .num 0])
     (.while "lt" "ge" [.reg 0, .num 3] (.seq (.alu 0 "add" [.reg 0, .num 1]) (.store "s" [.num (-7), .num 12, .reg 0])))
 
-example : Good intSem (fun _ => False) demo := by
-  refine ⟨⟨by decide, by intro o ho; simp at ho; rcases ho with rfl | rfl <;> trivial⟩, ?_, ?_, ⟨by decide, ?_⟩, ?_⟩
-  · intro vals hv
-    match vals, hv with
-    | [x, y], _ => simp [intSem]
-  · intro o ho; simp at ho; rcases ho with rfl | rfl
-    · show (0 : Nat) ≠ 17; decide
-    · trivial
-  · intro o ho; simp at ho; rcases ho with rfl | rfl
-    · show (0 : Nat) ≠ 17; decide
-    · trivial
-  · intro o ho; simp at ho; rcases ho with rfl | rfl | rfl
-    · trivial
-    · trivial
-    · show (0 : Nat) ≠ 17; decide
+example : Good intSem 64 (fun _ => False) demo := by
+  refine goodB_sound intSem 64 [("lt", "ge", 2)] [] _ ?_ (by simp) demo (by decide)
+  intro p hp vals hv
+  simp only [List.mem_singleton] at hp
+  subst hp
+  match vals, hv with
+  | [x, y], _ => simp [intSem]
 
 /-- line numbers are representable in this value domain (the hypothesis `hlit` of the theorems) -/
 example : ∀ n : Nat, intSem.toAddr ((fun k => (k : Int)) n) = some n := by
